@@ -264,6 +264,10 @@ def member_archive(c, k):
     members = [{"name": "big.txt", "data": big}, {"name": "ok.txt", "data": ok}]
     if c in ("zip-s", "zip-d"):
         return "t.zip", ZF.zip_honest(members, zipfile.ZIP_STORED if c == "zip-s" else zipfile.ZIP_DEFLATED)
+    if c in ("tar-lnk", "tar-sym", "tar.gz-lnk"):
+        # a hard / symbolic link with a supported extension pointing at the big member: its own size field is 0, its content is big.txt's
+        alias = {"name": "alias.txt", "type": "LNK" if c.endswith("lnk") else "SYM", "linkname": "big.txt"}
+        return ("t.tar.gz" if c.startswith("tar.gz") else "t.tar"), TF.tarforge(members + [alias], compression="gz" if c.startswith("tar.gz") else None)
     if c == "tar":
         return "t.tar", TF.tarforge(members)
     if c == "tar.gz":
@@ -368,7 +372,7 @@ def eval_member_limit(case):
             fails.append(("member_over_limit_others_lost", f"{what}: skipping big.txt lost ok.txt as well ({len(res)} results)"))
         bad = []
         for h in mon.hits:
-            if h[0] in ("ZipFile.read", "ZipFile.open", "TarFile.extractfile") and h[1] == "big.txt":
+            if h[0] in ("ZipFile.read", "ZipFile.open", "TarFile.extractfile") and h[1] in ("big.txt", "alias.txt"):
                 bad.append(f"{h[0]}(big.txt)")
             elif h[0] == "LZMADecompressor.decompress" and h[1] >= k:
                 bad.append(f"LZMADecompressor.decompress -> {h[1]} bytes")
@@ -565,7 +569,7 @@ def cases(tier):
     for via in ("extractor", "read_file0", "read_file"):
         for d in (-1, 0, 1):
             out.append({"k": "7z_limit", "via": via, "d": d})
-    for c in ("zip-s", "zip-d", "tar", "tar.gz", "7z-copy", "7z-lzma2"):
+    for c in ("zip-s", "zip-d", "tar", "tar.gz", "tar-lnk", "tar-sym", "tar.gz-lnk", "7z-copy", "7z-lzma2"):
         for L in (None, 1000, 65536):
             for d in (-1, 0, 1):
                 out.append({"k": "member_limit", "c": c, "L": L, "d": d})
